@@ -12,6 +12,7 @@ real code: cog's pipeline generates Go and Python builders (`builders: true`) fo
 """
 import collections
 import json
+import zlib
 import os
 import random
 
@@ -196,7 +197,7 @@ def select_cases(ctx, cases, quick, n2=200, n3=300):
 def cross_check_twin(entry, lang, c):
     m = bc.Machine(lang, entry, entry["D"]).run(c["pyseq"])
     ok = bc.same_obj(m.obj, c["pyobj"]) and sorted(set(m.errs)) == sorted(tuple(p) for p in c["errs"]) and \
-        m.raised == c["raised"] and m.fails() == c["fails"] and bc.consts_ok(entry["S"], entry["S"]["Root"], m.obj) == c["consts"]
+        m.raised == c["raised"] and [ci["bad"] for ci in m.calls] == c["bad"] and m.fails() == c["fails"] and bc.consts_ok(entry["S"], entry["S"]["Root"], m.obj) == c["consts"]
     if not ok:
         raise core.Inconclusive("python twin and TLC disagree on entry %s (%s) seq %s: twin obj %s errs %s raised %s fails %s; TLC obj %s errs %s raised %s fails %s" % (
             entry["name"], lang, sc.dumps(c["pyseq"]), sc.dumps(m.obj), m.errs, m.raised, m.fails(),
@@ -356,7 +357,8 @@ def run(ctx):
                 violated.add("SpuriousError")
                 descr.setdefault("SpuriousError", ("build", None))
         same_raised = m.raised == real_raised
-        if obj_ok and same_raised:
+        all_good = not any(ci["bad"] for ci in m.calls)
+        if obj_ok and same_raised and all_good:
             if not bc.same_obj(real_obj, m.obj) or (has_built and not bc.same_obj(built, m.obj)):
                 violated.add("Exact")
         if obj_ok and not bc.consts_ok(S, S["Root"], real_obj):
@@ -430,14 +432,14 @@ def run(ctx):
                             per[lang + ":exact-target:nil-intermediate"] += 1
                     if bc.is_builder_arg(S, ci["vt"]):
                         per[lang + ":exact-target:nested-builder"] += 1
-        if m.raised == real_raised and real_obj is not None:
+        if m.raised == real_raised and real_obj is not None and not any(ci["bad"] for ci in m.calls):
             per[lang + ":exact-target"] += 1
             if nopt == 1:
                 per[lang + ":exact-target:single-option"] += 1
             per[lang + ":constants"] += 1
         per["%s:len%d" % (lang, nopt)] += 1
         if not violated:
-            if len(samples) < 4 and nopt >= 1 and (hash(cid) + ctx.seed) % 97 == 0:
+            if len(samples) < 4 and nopt >= 1 and (zlib.crc32(cid.encode()) + ctx.seed) % 97 == 0:
                 samples.append({"package": u["pkg"], "language": lang, "entry": entry["name"], "sequence": seq, "expected_object": m.obj,
                                 "real_object": real_obj, "expected_build_fails": m.fails(), "real": raw})
             continue
@@ -469,7 +471,8 @@ def run(ctx):
                 argv = x["as"][a0["src"] - 1]
                 # go judges the value the nested builders produce (their defaults included), python the argument itself
                 judged = bc.built(S, D[(u["pkg"], lang)], bc.type_at(S, "Root", S["Root"], a0["path"])[0], ci["vt"], argv) if lang == "go" else argv
-                bcls = bound_class(bc.Planner(entry, u, lang, u["bind"][lang]), ir_args[a0["src"] - 1]["shape"], ci["vt"], judged, ci["violations"][0])
+                pos = (a0["src"] - 1) if ci["o"] == 0 else u["bind"][lang]["Root"]["opts"][ci["o"] - 1]["argpos"][a0["src"]]
+                bcls = bound_class(bc.Planner(entry, u, lang, u["bind"][lang]), ir_args[pos]["shape"], ci["vt"], judged, ci["violations"][0])
                 if "not-in-ir" in bcls:
                     # the constraint never reached the builder jenny (lost between the source schema and the IR): one class per
                     # lost bound, whatever the option looks like
@@ -559,7 +562,7 @@ def run(ctx):
         "checker_cmd": "tlc BuilderMC (index, cases); worker c09-gen, c09-glue; go build; bdriver; python3 driver; tlc BuilderTrace",
     }
     assumptions = [
-        "bounded universe: the catalogue of spec/BuilderMC.tla (9 schemas x builder transformations: none, struct fields as options, array "
+        "bounded universe: the catalogue of spec/BuilderMC.tla (10 schemas x builder transformations: none, struct fields as options / as arguments, array "
         "append, map index, options promoted to constructor arguments; unions, builders nested twice, inline structs, enums, defaults), "
         "sequences of <= 3 option calls; arguments = Semantics!Base and its one-place variants that a typed API can carry (every value for "
         "single calls, a valid / a violating / another valid value for longer sequences)",
@@ -596,9 +599,10 @@ def selftest_binding(ctx, tdir, records, entries, defaults, tpath):
     good = None
     # trace.ndjson was moved into the TLC directory by run_tlc: rebuild the record from `records`
     for cid, violated, descr, m, real_obj, built, real_raised, kinds, real_fails, raw, seq in records:
-        if not violated and real_obj is not None and any(x["o"] != 0 for x in seq) and not any(real_raised) and isinstance(real_obj, dict):
+        if not violated and real_obj is not None and any(x["o"] != 0 for x in seq) and not any(real_raised) and isinstance(real_obj, dict) \
+                and not any(ci["bad"] for ci in m.calls):
             good = (cid, m, real_obj, built, real_raised, real_fails, seq)
-            if (hash(cid) + ctx.seed) % 13 == 0:
+            if (zlib.crc32(cid.encode()) + ctx.seed) % 13 == 0:
                 break
     if good is None:
         raise core.Inconclusive("binding self-test: no clean record to corrupt")
